@@ -1,4 +1,9 @@
-use std::{collections::HashMap, convert::Infallible, sync::Arc};
+use std::{
+    collections::{HashMap, VecDeque},
+    convert::Infallible,
+    future::Future,
+    sync::Arc,
+};
 
 use axum::{
     extract::{Path, Query, State},
@@ -7,10 +12,9 @@ use axum::{
     routing::get,
     Json, Router,
 };
-use futures_util::StreamExt;
+use futures_util::{Stream, StreamExt};
 use serde::{Deserialize, Serialize};
-use tokio::sync::Mutex;
-use tokio_stream::wrappers::BroadcastStream;
+use tokio::sync::{broadcast, Mutex};
 use utoipa::{OpenApi, ToSchema};
 use utoipa_axum::{router::OpenApiRouter, routes};
 
@@ -571,6 +575,59 @@ async fn send_input(
     StatusCode::ACCEPTED.into_response()
 }
 
+/// The live half of an event stream: the frames that arrive on the broadcast channel after the
+/// history replay, without the ones the client already has (`seq <= last_seq`) and, on a channel
+/// shared by several streams, without the frames of other streams (`stream_id`).
+///
+/// A receiver that falls more than the channel capacity behind is told `Lagged` and resumes at the
+/// oldest frame the channel still holds. The frames in between are not lost: they are in the
+/// stream's history. `refill` re-reads that history and delivery carries on after the last seq
+/// sent, so a slow client still receives every frame exactly once and in order.
+fn live_frames<F, Fut>(
+    receiver: broadcast::Receiver<rip_kernel::Event>,
+    last_seq: Option<u64>,
+    stream_id: Option<String>,
+    refill: F,
+) -> impl Stream<Item = Result<SseEvent, Infallible>> + Send
+where
+    F: Fn() -> Fut + Send + 'static,
+    Fut: Future<Output = Vec<rip_kernel::Event>> + Send,
+{
+    let pending: VecDeque<rip_kernel::Event> = VecDeque::new();
+    futures_util::stream::unfold(
+        (receiver, last_seq, pending, stream_id, refill),
+        |(mut receiver, mut last_seq, mut pending, stream_id, refill)| async move {
+            loop {
+                let Some(event) = pending.pop_front() else {
+                    match receiver.recv().await {
+                        Ok(event) => pending.push_back(event),
+                        Err(broadcast::error::RecvError::Lagged(_)) => {
+                            pending.extend(refill().await);
+                        }
+                        Err(broadcast::error::RecvError::Closed) => return None,
+                    }
+                    continue;
+                };
+                if stream_id
+                    .as_deref()
+                    .is_some_and(|id| event.session_id != id)
+                {
+                    continue;
+                }
+                if last_seq.map(|last| event.seq <= last).unwrap_or(false) {
+                    continue;
+                }
+                let Ok(json) = serde_json::to_string(&event) else {
+                    continue;
+                };
+                last_seq = Some(event.seq);
+                let frame = Ok::<SseEvent, Infallible>(SseEvent::default().data(json));
+                return Some((frame, (receiver, last_seq, pending, stream_id, refill)));
+            }
+        },
+    )
+}
+
 #[utoipa::path(
     get,
     path = "/sessions/{id}/events",
@@ -607,21 +664,9 @@ async fn stream_events(
         Some(Ok::<SseEvent, Infallible>(SseEvent::default().data(json)))
     });
 
-    let last_seq_live = last_seq;
-    let live_stream = BroadcastStream::new(receiver).filter_map(move |result| {
-        let last_seq = last_seq_live;
-        async move {
-            match result {
-                Ok(event) => {
-                    if last_seq.map(|last| event.seq <= last).unwrap_or(false) {
-                        return None;
-                    }
-                    let json = serde_json::to_string(&event).ok()?;
-                    Some(Ok::<SseEvent, Infallible>(SseEvent::default().data(json)))
-                }
-                Err(_) => None,
-            }
-        }
+    let live_stream = live_frames(receiver, last_seq, None, move || {
+        let handle = handle.clone();
+        async move { handle.events_snapshot().await }
     });
 
     let stream = past_stream.chain(live_stream);
@@ -1349,26 +1394,10 @@ async fn thread_stream_events(
         Some(Ok::<SseEvent, Infallible>(SseEvent::default().data(json)))
     });
 
-    let thread_id_live = thread_id.clone();
-    let last_seq_live = last_seq;
-    let live_stream = BroadcastStream::new(receiver).filter_map(move |result| {
-        let last_seq = last_seq_live;
-        let thread_id = thread_id_live.clone();
-        async move {
-            match result {
-                Ok(event) => {
-                    if event.session_id != thread_id {
-                        return None;
-                    }
-                    if last_seq.map(|last| event.seq <= last).unwrap_or(false) {
-                        return None;
-                    }
-                    let json = serde_json::to_string(&event).ok()?;
-                    Some(Ok::<SseEvent, Infallible>(SseEvent::default().data(json)))
-                }
-                Err(_) => None,
-            }
-        }
+    // The continuity channel carries the frames of every thread: only this thread's go out.
+    let live_stream = live_frames(receiver, last_seq, Some(thread_id.clone()), move || {
+        let history = store.replay_events(&thread_id).unwrap_or_default();
+        async move { history }
     });
 
     let stream = past_stream.chain(live_stream);
@@ -1533,21 +1562,9 @@ async fn stream_task_events(
         Some(Ok::<SseEvent, Infallible>(SseEvent::default().data(json)))
     });
 
-    let last_seq_live = last_seq;
-    let live_stream = BroadcastStream::new(receiver).filter_map(move |result| {
-        let last_seq = last_seq_live;
-        async move {
-            match result {
-                Ok(event) => {
-                    if last_seq.map(|last| event.seq <= last).unwrap_or(false) {
-                        return None;
-                    }
-                    let json = serde_json::to_string(&event).ok()?;
-                    Some(Ok::<SseEvent, Infallible>(SseEvent::default().data(json)))
-                }
-                Err(_) => None,
-            }
-        }
+    let live_stream = live_frames(receiver, last_seq, None, move || {
+        let handle = handle.clone();
+        async move { handle.events_snapshot().await }
     });
 
     let stream = past_stream.chain(live_stream);
